@@ -83,6 +83,37 @@ def run(facts, rep, tier, ctx):
     if any(b.impl and b.impl["self_ty"] == "async_vfs::path::WalkDirIterator" for b in facts.bodies):
         from . import c15
         c15.poll_next_rules(facts, rep, D)
+    # R13.5 a formatting impl fails only when the writer it is given fails: `format!`, `to_string`, `println!`, a failing `assert_eq!`
+    # of two paths ... panic ("a formatting trait implementation returned an error") when fmt() answers Err on its own.  No
+    # `fmt::Error` value is built anywhere in the crate — every Err a fmt() returns is the Formatter's
+    from ..terms import get_tracer as _gt13, walk as _wk13
+    from ..panics import norm as _nm13
+    nfmt = 0
+    for b in facts.bodies:
+        if b.file.startswith("tests") or b.file.endswith("test_macros.rs"):
+            continue
+        if b.kind != "Closure" and b.name == "fmt" and b.impl and (b.impl.get("trait") or "").startswith("std::fmt::") and \
+                not b.impl.get("derived"):
+            nfmt += 1
+        built = []
+        tr13 = None
+        for blk in b.blocks:
+            if blk.cleanup:
+                continue
+            for st in blk.stmts:
+                if st.kind == "assign" and st.rv.kind == "agg" and st.rv.agg.get("adt") == "std::fmt::Error":
+                    built.append(st.line)
+            t = blk.term
+            if t.kind == "call" and t.args:
+                tr13 = tr13 or _gt13(facts, b)
+                for a in t.args:
+                    if a.place is None and any(x[0] == "agg" and x[1] == "std::fmt::Error" for x in _wk13(_nm13(tr13.operand(a)))):
+                        built.append(t.line)
+        for line in sorted(set(built)):
+            rep.ob("R13.5", D.owner_id(b), "no fmt::Error of the library's own", False,
+                   "a `fmt::Error` is built here: a Debug/Display impl that returns it while the writer is fine makes format!/to_string/"
+                   "println! panic in the caller", line)
+    rep.ob("R13.5", "crate", "hand-written fmt impls inspected", nfmt >= 1, "%d impl(s); no fmt::Error constructed" % nfmt, "")
     if tier == "thorough":
         clippy_crossref(facts, rep, ctx, sites)
     rep.assume("FileSystem contract: every path a backend receives is \"\" or starts with '/' (the path layer only "
